@@ -571,6 +571,11 @@ def run(ck):
     # "a packet advertised by one FakeBLE object ... is queued": the receiver accepts only packets whose length byte and CRC position agree
     # with their content - what the advertiser assembles must satisfy the length algebra and layout of C18 (R18.1 / R18.2, re-run here)
     c18.length_algebra(ck, agg, ble.Ble(ck))
+    c18.constants(ck, agg, ble.Ble(ck))      # incl. R18.6: after `show_pa_level = x` / `mac = x` / `name = x` the packet has the layout the receiver parses
+    # "each once": FakeBLE.available() takes a payload only when RF24.available() says the FIFO holds one - from a fresh STATUS (R10.1, shared with C10)
+    from . import c10
+    from .radio import Radio
+    c10.run_for(ck, Radio(ck), agg)
     agg.flush()
     ck.floor("R19.1", "available() paths", n1, 5)
     ck.floor("R19.1", "raise-capable site evaluations", sites, 8)
